@@ -380,7 +380,8 @@ def run(ctx):
                     counts[k] = counts.get(k, 0) + v
         log("recorded %d histories from the real app in %.0fs" % (nh, time.time() - t1))
         for need in ("create", "addg", "lock", "add", "begin", "unlock", "setrr", "extend", "advance", "epoch", "create:refused", "addg:refused",
-                     "history:below", "history:above", "history:nomin", "history:foo-not-valuable", "history:min-denom-not-base"):
+                     "history:below", "history:above", "history:nomin", "history:foo-not-valuable", "history:min-denom-not-base",
+                     "history:big", "big:epoch-with-single-denom-gauge-remaining-in-2^63..2^64"):
             if counts.get(need, 0) == 0:
                 raise Infra("recorder produced no %s events: driver is not exercising the property" % need)
         if counts.get("epoch:refused", 0):
